@@ -224,4 +224,36 @@ def Proof.verify {D : Type} [DecidableEq D] (H : HashFns D) (p : Proof D) (leaf 
     | .error e => .err e
     | .ok r => if r ≠ rt then .err .rootMismatch else .ok
 
+/-! ### Idealised-hash hypotheses (used as explicit hypotheses of theorems, never as axioms) -/
+
+/-- `inner` is collision free -/
+def InnerInj {D : Type} (H : HashFns D) : Prop :=
+  ∀ a b c d, H.inner a b = H.inner c d → a = c ∧ b = d
+
+/-- `leaf` is collision free -/
+def LeafInj {D : Type} (H : HashFns D) : Prop :=
+  ∀ x y, H.leaf x = H.leaf y → x = y
+
+/-- domain separation: a leaf digest is never an inner digest -/
+def LeafNeInner {D : Type} (H : HashFns D) : Prop :=
+  ∀ x a b, H.leaf x ≠ H.inner a b
+
+/-- an explicit collision of `leaf` or of `inner` -/
+def Collision {D : Type} (H : HashFns D) : Prop :=
+  (∃ x y, x ≠ y ∧ H.leaf x = H.leaf y) ∨
+  (∃ a b c d, (a ≠ c ∨ b ≠ d) ∧ H.inner a b = H.inner c d)
+
+/-- A collision-free instance witnessing that the hypotheses are satisfiable: digests are the
+    merkle terms themselves (the free algebra). -/
+inductive Term where
+  | empty
+  | leaf (b : Bytes)
+  | inner (l r : Term)
+  deriving DecidableEq, Repr
+
+def termFns : HashFns Term where
+  empty := .empty
+  leaf := .leaf
+  inner := .inner
+
 end Lumina.Model.Merkle
